@@ -539,12 +539,23 @@ func runJSON(sum *vh.Summary, cw *vh.CaseWriter, text string, gen *jval, verbose
 	var n *idr.Node
 	var readErr error
 	var ifT, ifF interface{}
+	var okT, ok1, ok2 bool
+	var fresh string
+	sT, sF, sC := "JNull", "JNull", "None"
 	func() {
 		defer func() {
 			if p := recover(); p != nil {
 				obs.Panic = fmt.Sprint(p)
 			}
 		}()
+		if refErr == nil && !skipOracle {
+			// an earlier conversion in this process whose result the caller changed: every case
+			// carries its own, so that a replay of the case alone reproduces a failure
+			if pn := probeTree(); pn != nil {
+				mutateValue(idr.J2NodeToInterface(pn, true))
+				mutateValue(idr.J2NodeToInterface(pn, false))
+			}
+		}
 		rd, err := idr.NewJSONStreamReader(strings.NewReader(text), ".")
 		if err != nil {
 			readErr = err
@@ -560,6 +571,32 @@ func runJSON(sum *vh.Summary, cw *vh.CaseWriter, text string, gen *jval, verbose
 		ifT = idr.J2NodeToInterface(n, true)
 		ifF = idr.J2NodeToInterface(n, false)
 		obs.IfaceTrue = ifT
+		// snapshots for the oracle and the model, taken before the values are handed to a "caller"
+		okT = eqJSON(ifT, ref)
+		sT, ok1 = coqIface(ifT, nil)
+		sF, ok2 = coqIface(ifF, nil)
+		collectFloats(ifT, floats)
+		if b, err := json.Marshal(ifT); err == nil && len(b) <= 20000 {
+			obs.IfaceTrue = json.RawMessage(b)
+		} else {
+			obs.IfaceTrue = nil
+		}
+		// ---- freshness: the returned values belong to the caller, who may change them ----
+		if refErr == nil && !skipOracle {
+			mutateValue(ifT)
+			mutateValue(ifF)
+			if again := idr.J2NodeToInterface(n, true); !eqJSON(again, ref) {
+				b, _ := json.Marshal(again)
+				fresh = "converting the same tree again after the caller changed the first result gives " + clip(string(b))
+			} else if js := idr.JSONify2(n); !sameJSONText(js, ref) {
+				fresh = "JSONify2 of the same tree after the caller changed an earlier result gives " + clip(js)
+			} else if pn := probeTree(); pn != nil {
+				if pv := idr.J2NodeToInterface(pn, true); !eqJSON(pv, probeRef) {
+					b, _ := json.Marshal(pv)
+					fresh = "converting another tree (" + probeText + ") after the caller changed an earlier result gives " + clip(string(b))
+				}
+			}
+		}
 		// the document is complete: nothing but the end of input may follow
 		n2, err2 := rd.Read()
 		if n2 != nil || err2 == nil {
@@ -622,8 +659,10 @@ func runJSON(sum *vh.Summary, cw *vh.CaseWriter, text string, gen *jval, verbose
 		switch {
 		case n == nil:
 			fail("valid JSON document was not read into a node tree", obs.ReadErr)
-		case !eqJSON(ifT, ref):
+		case !okT:
 			fail("J2NodeToInterface(tree, true) differs from encoding/json's value of the same text", nil)
+		case fresh != "":
+			fail("a value returned by the conversion is not fresh: changing it influences a later conversion", fresh)
 		default:
 			var back interface{}
 			if err := json.Unmarshal([]byte(obs.JSONify2), &back); err != nil || !eqJSON(back, ref) {
@@ -643,7 +682,6 @@ func runJSON(sum *vh.Summary, cw *vh.CaseWriter, text string, gen *jval, verbose
 
 	// ---- correspondence case ----
 	// strconv table for every number in sight, and the strconv round-trip the theorem assumes
-	collectFloats(ifT, floats)
 	collectFloats(copyVal, floats)
 	bitsList := make([]uint64, 0, len(floats))
 	for b := range floats {
@@ -664,12 +702,8 @@ func runJSON(sum *vh.Summary, cw *vh.CaseWriter, text string, gen *jval, verbose
 		val = "(Some " + gen.coq() + ")"
 	}
 	tree := "None"
-	sT, sF, sC := "JNull", "JNull", "None"
 	if n != nil {
 		tree = "(Some " + obs.Tree + ")"
-		var ok1, ok2 bool
-		sT, ok1 = coqIface(ifT, nil)
-		sF, ok2 = coqIface(ifF, nil)
 		if !ok1 || !ok2 {
 			fail("J2NodeToInterface returned something that is not a JSON value", nil)
 		}
@@ -794,6 +828,14 @@ func jsonCandidates(v *jval) []*jval {
 
 // shrinkJSON: greedy, within a wall-clock budget (big values cost tens of ms per evaluation).
 func shrinkJSON(v *jval) *jval {
+	return shrinkJSONWith(v, func(c *jval) bool {
+		var sb strings.Builder
+		c.serialise(nil, &sb)
+		return runJSON(nil, nil, sb.String(), c, false)
+	})
+}
+
+func shrinkJSONWith(v *jval, fails func(*jval) bool) *jval {
 	deadline := time.Now().Add(6 * time.Second)
 	for round := 0; round < 400 && time.Now().Before(deadline); round++ {
 		progress := false
@@ -801,9 +843,7 @@ func shrinkJSON(v *jval) *jval {
 			if !time.Now().Before(deadline) {
 				break
 			}
-			var sb strings.Builder
-			c.serialise(nil, &sb)
-			if runJSON(nil, nil, sb.String(), c, false) {
+			if fails(c) {
 				v, progress = c, true
 				break
 			}
@@ -1031,11 +1071,11 @@ func bigDocs(r *vh.Rng, sum *vh.Summary, cw *vh.CaseWriter) {
 		runJSONShrunk(sum, nil, text, v, fmt.Sprintf("a generated record with %d scalar leaves (shape %d)", countLeaves(v), shape))
 	}
 	// one wide value also through the model
-	v := mk(r.Pick(3), 1200)
+	v := mk(r.Pick(3), 600)
 	var sb strings.Builder
 	v.serialise(nil, &sb)
 	sum.Count("json:"+sb.String(), true)
-	sum.Hist("json:wide-record(1.2k leaves, model too)")
+	sum.Hist("json:wide-record(600 leaves, model too)")
 	runJSON(sum, cw, sb.String(), v, false)
 }
 
@@ -1064,4 +1104,193 @@ func runJSONShrunk(sum *vh.Summary, cw *vh.CaseWriter, text string, v *jval, fro
 		shrunkFrom = ""
 	}
 	return failed
+}
+
+// ---- freshness of returned values ---------------------------------------------------------------------
+
+// mutateValue changes a converted value the way an owner may: every map gets a new key and all
+// its entries overwritten (after their own contents were changed), every slice gets its elements
+// overwritten and one appended.  Empty maps and slices are changed too.
+func mutateValue(v interface{}) interface{} {
+	switch x := v.(type) {
+	case map[string]interface{}:
+		for k, e := range x {
+			mutateValue(e)
+			x[k] = "MUT"
+		}
+		x["__mut"] = map[string]interface{}{"by": "caller"}
+		return x
+	case []interface{}:
+		for i, e := range x {
+			mutateValue(e)
+			x[i] = "MUT"
+		}
+		return append(x, "MUT")
+	}
+	return v
+}
+
+const probeText = `[{},{"a":{},"":[]},[],"x",[[],{}],{"k":1}]`
+
+var probeRef interface{}
+
+// probeTree reads the fixed probe document (empty objects and arrays at several places).
+func probeTree() *idr.Node {
+	if probeRef == nil {
+		_ = json.Unmarshal([]byte(probeText), &probeRef)
+	}
+	rd, err := idr.NewJSONStreamReader(strings.NewReader(probeText), ".")
+	if err != nil {
+		return nil
+	}
+	n, err := rd.Read()
+	if err != nil {
+		return nil
+	}
+	return n
+}
+
+func sameJSONText(js string, ref interface{}) bool {
+	var v interface{}
+	return json.Unmarshal([]byte(js), &v) == nil && eqJSON(v, ref)
+}
+
+// ---- copy results handed to javascript, record after record -------------------------------------------
+
+// Every record is copied twice: once as the argument of a javascript custom_func that changes the
+// value it was given (goja writes property assignments through to the Go map / slice), once as the
+// output.  The output of every record must still equal the record.
+const seqSchema = `{
+ "parser_settings": {"version": "omni.2.1", "file_format_type": "json"},
+ "transform_declarations": {"FINAL_OUTPUT": {"xpath": "/*", "object": {
+   "a_mut": {"custom_func": {"name": "javascript", "args": [
+      {"const": "(function m(x){ if (x === null || typeof x !== 'object') return; if (Array.isArray(x)) { for (var i = 0; i < x.length; i++) { m(x[i]); x[i] = 'MUT'; } x.push('MUT'); } else { for (var k in x) { m(x[k]); x[k] = 'MUT'; } x.__mut = 'js'; } })(v); 'done'"},
+      {"const": "v"}, {"xpath": ".", "custom_func": {"name": "copy"}, "keep_empty_or_null": true}]}},
+   "copy": {"xpath": ".", "custom_func": {"name": "copy"}, "keep_empty_or_null": true, "no_trim": true},
+   "z_mut": {"custom_func": {"name": "javascript", "args": [
+      {"const": "w.__late = 1; 'done'"},
+      {"const": "w"}, {"xpath": ".", "custom_func": {"name": "copy", "ignore_error": true}, "keep_empty_or_null": true}]}}
+ }}}
+}`
+
+// NOTE the three copy declarations above are deliberately NOT textually identical: the transform
+// result cache (parse.go: key = node ID + declaration hash) hands the SAME Go value to textually
+// equal declarations evaluated on one node, so a javascript that changes its argument changes
+// the sibling field too (new finding F17, corpus f17_shared_cached_copy.json).
+
+var seqSch omniparser.Schema
+
+// runJSONSeq: text is a JSON array of records (each an object or array).  Returns whether the
+// oracle failed.  schema "" = seqSchema above.
+func runJSONSeq(sum *vh.Summary, text, schema string, verbose bool) (failed bool) {
+	cs := textCase{Kind: "json-seq", Text: text, Schema: schema}
+	if sum != nil {
+		vh.Current(opts, cs)
+	}
+	fail := func(what string, detail interface{}) {
+		failed = true
+		if sum != nil {
+			sum.Fail(what, cs, map[string]interface{}{"detail": detail, "shrunk_from": shrunkFrom})
+		}
+		if verbose {
+			fmt.Println(" ", what, detail)
+		}
+	}
+	var recs []interface{}
+	if err := json.Unmarshal([]byte(text), &recs); err != nil {
+		fail("harness: json-seq text is not an array of records", err.Error())
+		return
+	}
+	defer func() {
+		if p := recover(); p != nil {
+			fail("copy/javascript transform panicked", fmt.Sprint(p))
+		}
+	}()
+	sch := seqSch
+	if schema != "" || sch == nil {
+		src := schema
+		if src == "" {
+			src = seqSchema
+		}
+		s, err := omniparser.NewSchema("c08-seq", strings.NewReader(src))
+		if err != nil {
+			fail("harness: sequence schema rejected", err.Error())
+			return
+		}
+		sch = s
+		if schema == "" {
+			seqSch = s
+		}
+	}
+	tr, err := sch.NewTransform("c08-seq", strings.NewReader(text), &transformctx.Ctx{})
+	if err != nil {
+		fail("NewTransform failed", err.Error())
+		return
+	}
+	for i, want := range recs {
+		b, err := tr.Read()
+		if err != nil {
+			fail(fmt.Sprintf("record %d: Read failed on a valid record", i), err.Error())
+			return
+		}
+		var out map[string]interface{}
+		if err := json.Unmarshal(b, &out); err != nil {
+			fail(fmt.Sprintf("record %d: output does not decode", i), string(b))
+			return
+		}
+		if verbose {
+			fmt.Printf(" record %d: copy=%s\n", i, clip(string(b)))
+		}
+		if got, ok := out["copy"]; !ok || !eqJSON(got, want) {
+			gb, _ := json.Marshal(got)
+			wb, _ := json.Marshal(want)
+			fail("copy of a record is influenced by what a javascript custom_func did to another copy (the copied value is not fresh)",
+				map[string]interface{}{"record": i, "copy": clip(string(gb)), "record_value": clip(string(wb))})
+			return
+		}
+	}
+	if _, err := tr.Read(); err != io.EOF {
+		fail("transform did not end after the last record", fmt.Sprint(err))
+	}
+	return
+}
+
+func genJSONSeq(r *vh.Rng, sum *vh.Summary) {
+	st := &jstats{}
+	arr := &jval{K: jArr}
+	for i, k := 0, r.Between(2, 5); i < k; i++ {
+		rec := &jval{K: jObj, Keys: []*jval{strVal("id"), strVal("e"), strVal("a"), strVal("v")},
+			Vals: []*jval{numVal(strconv.Itoa(i)), {K: jObj}, {K: jArr}, genValue(r, st, 1, pickOf(r, 1, 2, 3))}}
+		if r.Chance(0.3) {
+			rec = &jval{K: jArr, Arr: []*jval{{K: jObj}, genValue(r, st, 1, 2), {K: jArr}}}
+		}
+		arr.Arr = append(arr.Arr, rec)
+	}
+	var sb strings.Builder
+	arr.serialise(nil, &sb)
+	text := sb.String()
+	sum.Count("json-seq:"+text, true)
+	sum.Hist("json:record-sequence(copy handed to javascript, oracle only)")
+	nf := len(sum.Failures)
+	if runJSONSeq(sum, text, "", false) && len(sum.Failures) == nf+1 && nf < 4 {
+		sum.Failures = sum.Failures[:nf]
+		w := shrinkJSONWith(arr, func(c *jval) bool {
+			if c.K != jArr {
+				return false
+			}
+			for _, x := range c.Arr {
+				if x.K != jObj && x.K != jArr {
+					return false
+				}
+			}
+			var b strings.Builder
+			c.serialise(nil, &b)
+			return runJSONSeq(nil, b.String(), "", false)
+		})
+		var b strings.Builder
+		w.serialise(nil, &b)
+		shrunkFrom = text
+		runJSONSeq(sum, b.String(), "", false)
+		shrunkFrom = ""
+	}
 }
